@@ -401,7 +401,7 @@ def c05(ctx):
             cmds.append(fn % (hx(b"pass"), hx(s)))
     nbound = 0
     for m in cfgev["E"]:
-        for s in gen.grammar_boundaries(m, rng) + gen.late_bad_char_settings(m, rng) + gen.salt_length_bad_char(m, rng):
+        for s in gen.grammar_boundaries(m, rng) + gen.late_bad_char_settings(m, rng) + gen.salt_length_bad_char(m, rng) + gen.noncanonical_salt_lengths(m, rng):
             cmds.append("crypt_rn 0 %s %s 32768" % (hx(b"pass"), hx(s)))
             cmds.append(rng.choice(("crypt_r 0 %s %s", "crypt - %s %s", "crypt_ra 1 %s %s")) % (hx(b"pass"), hx(s)))
             nbound += 1
@@ -1045,7 +1045,7 @@ def gs_coverage(ctx, vs, events, extra):
 
 
 REQUIRED_ANTS_GS = {"C10": ["Success", "Deterministic", "NonzeroErrno"], "C11": ["Success", "CostReject"],
-                    "C12": ["Flip", "EntropyFresh", "AutoEntropy", "TooShort"], "C13": ["Monotone", "Full", "SmallSize", "NonzeroErrno"]}
+                    "C12": ["Flip", "EntropyFresh", "AutoEntropy", "TooShort", "StdSalt"], "C13": ["Monotone", "Full", "SmallSize", "NonzeroErrno"]}
 GS_ASSUME = ["Gensalt.tla/Settings.tla transcribe the documented behaviour (gated by zero model divergences on the unchanged tree)",
              "count, nrbytes and size values are the grids listed in coverage, not all 2^64 x 2^32 x 2^32 values"]
 
@@ -1155,7 +1155,7 @@ def c12(ctx):
     cmds = ["entropy 0 %d" % (ctx.seed % 200 + 1)]
     # salt-size laws over nrbytes 0..256
     for pfx in prefixes:
-        for nr in (range(0, 70) if quick else range(0, 257)):
+        for nr in (list(range(0, 70)) + [100, 127, 128, 129, 200, 254, 255, 256] if quick else range(0, 257)):
             rb = bytes(rng.randrange(256) for _ in range(nr))
             cmds.append(gs_cmd("gensalt_rn", pfx, 0, rb))
         for rep in range(3):
@@ -1361,6 +1361,14 @@ def c13(ctx):
                 for sz in sizes:
                     cmds.append(gs_cmd("gensalt_rn", pfx, c, rb, "len", sz))
                     n += 1
+    # "never terminates the process": every small count (where the clamps and window widths of the linear-cost methods
+    # degenerate: a width of count / 4 is zero for count < 4) at a documented, a tight and a too-small size
+    for pfx in prefixes:
+        for c in list(range(1, 41)) + [2 ** 16 - 1, 2 ** 16, 2 ** 32 - 1, 2 ** 32]:
+            rb = bytes(rng.randrange(256) for _ in range(rng.choice((16, 20, 64))))
+            for sz in (192, 30, 12):
+                cmds.append(gs_cmd("gensalt_rn", pfx, c, rb, "len", sz))
+                n += 1
     # negative and huge nrbytes, random large sizes
     for pfx in prefixes:
         rb = bytes(rng.randrange(256) for _ in range(16))
